@@ -223,7 +223,13 @@ macro_rules! impl_derivatives {
 
             #[inline]
             fn atan2(&self, other: Self) -> Self {
-                let mut res = (self / other.clone()).atan();
+                // atan(y/x) and -atan(x/y) differ from atan2(y,x) by a constant only;
+                // divide by the larger real part so that neither axis divides by zero.
+                let mut res = if other.re().abs() >= self.re().abs() {
+                    (self / other.clone()).atan()
+                } else {
+                    -(other.clone() / self).atan()
+                };
                 res.re = self.re.atan2(other.re);
                 res
             }
